@@ -17,7 +17,7 @@ import (
 func init() {
 	register(Property{ID: "C13", Level: "proof", Run: runC13,
 		Technique: "static analysis: field-coverage comparison over the type-checked AST of Core.createResources / Core.closeResources (use-set vs compare-set per component, dependency closure, ordering)",
-		Text: "For each of the components created in Core.createResources, every conf.Conf field read while creating it (condition, literal, helper arguments) is either compared in the component's close predicate in Core.closeResources (directly, or through an or-ed predicate of another component) or handed to an in-place Reload* call guarded by the negated predicate; every other component it references is in the closure of its predicate; dependants are closed before and created after their dependencies; every predicate contains newConf == nil; clause 2 (unchanged => kept): every compared field is used by the component and no pointer-typed field is compared by identity. Obligations = (component, field) and (component, dependency) pairs, all discharged or listed as findings.",
+		Text: "For each of the components created in Core.createResources, every conf.Conf field read while creating it (condition, literal, helper arguments) is either compared in the component's close predicate in Core.closeResources (directly, or through an or-ed predicate of another component) or handed to an in-place Reload* call guarded by the negated predicate; every other component it references is in the closure of its predicate; dependants are closed before and created after their dependencies; every predicate contains newConf == nil; clause 2 (unchanged => kept): every compared field is used by the component and no pointer-typed field is compared by identity. Obligations = (component, field) and (component, dependency) pairs, all discharged or listed as findings. For the components reloaded in place (every Reload* method called by Core.closeResources) it is also decided on the SSA that the payload reaches a field of the component (not dropped) and that, in each function applying it, no value derived from the previous content of that field (an interval, a timer, a channel built from it) is used after the store without the field being read again - so the running service does not keep a schedule or state computed from the old configuration. Not decided: that everything re-derived is complete (state kept in other fields of the component).",
 		Note: "trusted: go/types; the component's Initialize() reads only the fields set in its literal (the literal is the component's whole configuration); reflect.DeepEqual / slices.Equal semantics"})
 	addMutants(
 		Mutant{"C13", "drop-hls-cdnsecret-compare", "internal/core/core.go",
@@ -32,6 +32,14 @@ func init() {
 			"	if closeAPI {\n			p.api.Close()\n			p.api = nil\n		}\n	}\n", "	if closeAPI {\n			p.api.Close()\n			p.api = nil\n		}\n	}\n\n	if closeMetrics && p.metrics != nil {\n		p.metrics.Close()\n		p.metrics = nil\n	}\n", "C13.close_order"},
 		Mutant{"C13", "webrtc-close-block-removed", "internal/core/core.go",
 			"	if closeWebRTCServer && p.webRTCServer != nil {\n		p.webRTCServer.Close()\n		p.webRTCServer = nil\n	}\n", "", "C13"},
+		Mutant{"C13", "cleaner-single-timer-not-rearmed-on-reload", "internal/recordcleaner/cleaner.go",
+			"	for {\n		select {\n		case <-time.After(c.cleanInterval()):\n			c.doRun()\n",
+			"	timer := time.NewTimer(c.cleanInterval())\n	defer timer.Stop()\n\n	for {\n		select {\n		case <-timer.C:\n			c.doRun()\n			timer.Reset(c.cleanInterval())\n", "C13.reload_applied.no_stale"},
+		Mutant{"C13", "cleaner-interval-computed-once", "internal/recordcleaner/cleaner.go",
+			"	for {\n		select {\n		case <-time.After(c.cleanInterval()):\n			c.doRun()\n",
+			"	interval := c.cleanInterval()\n\n	for {\n		select {\n		case <-time.After(interval):\n			c.doRun()\n", "C13.reload_applied.no_stale"},
+		Mutant{"C13", "playback-reload-dropped", "internal/playback/server.go",
+			"	defer s.mutex.Unlock()\n	s.PathConfs = pathConfs\n", "	defer s.mutex.Unlock()\n	_ = pathConfs\n", "C13.reload_applied.stored"},
 		Mutant{"C13", "hot-reload-unguarded-dropped", "internal/core/core.go",
 			"	if !closePathManager && !reflect.DeepEqual(newConf.Paths, currentConf.Paths) {\n		p.pathManager.ReloadPathConfs(newConf.Paths)\n	}\n", "", "C13.use_covered"},
 	)
@@ -66,6 +74,10 @@ func runC13(c *Ctx) {
 	}
 	c.Explain = "USE(X) = currentConf.F selectors inside the creation block of component X in Core.createResources; DEP(X) = p.<component> selectors and `Parent: p` there; CMP(X) = fields compared in closeX := ... in Core.closeResources; INC(X) = or-ed close flags; HOT(X) = newConf.F selectors in an if guarded by !closeX. Rules: USE ⊆ CMP* ∪ HOT (closure over INC); DEP ⊆ INC*; newConf == nil in every flag; close block exists per component; dependants closed before / created after dependencies; CMP ⊆ USE* ; no pointer identity comparison. Not decided: what Initialize() does with the fields."
 	c.Assume = []string{"a component's behaviour depends on the configuration only through the conf fields read in its creation block"}
+	c.Explain += " reload_applied (go/ssa, prop_r3_c13.go): for every Reload* method Core.closeResources calls, stored: its payload parameter flows (through selects/sends on a struct-field channel, received by the component's run loop, and static calls) into a Store to a field F of the component; no_stale: in every function of the component's package that stores F or calls a function that does, a walk from that point reaches no instruction with an operand derived (data flow from loads of F and from results of functions reading F, through locals) from F, unless a new read of F is passed first."
+
+	// an in-place reload really reloads (prop_r3_c13.go)
+	c13ReloadApplied(c, p)
 
 	cr, pk := p.FuncDecl("internal/core", "Core", "createResources")
 	cl, _ := p.FuncDecl("internal/core", "Core", "closeResources")
